@@ -55,7 +55,7 @@ def gen_case(seed: int, idx: int) -> dict[str, Any]:
 
 
 def gen_cases(tier: str, seed: int) -> list[dict[str, Any]]:
-    n = 180 if tier == "quick" else 5000
+    n = 180 if tier == "quick" else 20000
     return [gen_case(seed, i) for i in range(n)]
 
 
